@@ -5,7 +5,9 @@
 //!   `ddv-gen worker` child and reads one answer line back per case. A child that dies (stack
 //!   overflow abort, OOM kill, …) yields `{"outcome":"abort"}` for the case in flight and a fresh
 //!   worker for the next case; a child that exceeds `DDV_GEN_TIMEOUT_MS` (default 60000) is killed
-//!   and yields `{"outcome":"timeout"}` (protocol extension, see the report).
+//!   and yields `{"outcome":"timeout"}` (protocol extension). Workers run with an address-space
+//!   cap of `DDV_GEN_MEM_MB` (default 4096, `0` = none); exceeding it is an allocation-failure
+//!   abort, i.e. `{"outcome":"abort"}`.
 //! * `ddv-gen worker` — child. Runs every case on the **main thread with the default stack**, so a
 //!   real stack overflow aborts the process exactly as it would abort rustc's proc-macro server.
 //! * `ddv-gen names <in.jsonl> <out.jsonl>` — add/overwrite `"names"` using the convert_case oracle.
@@ -298,8 +300,38 @@ pub fn process_case_line(line: &str) -> Value {
 // Worker
 // ---------------------------------------------------------------------------------------------
 
+/// Cap the worker's address space (`DDV_GEN_MEM_MB`, default 4096, `0` = no cap) so that a case
+/// that allocates without bound (e.g. `repeat.count = 4e9` in the LIR address pass) dies quickly
+/// with an allocation-failure abort instead of taking the machine down. The stack is not affected:
+/// the main thread keeps the default 8 MiB, so genuine stack overflows still abort as for users.
+#[cfg(target_os = "linux")]
+fn cap_memory() {
+    #[repr(C)]
+    struct RLimit {
+        cur: u64,
+        max: u64,
+    }
+    unsafe extern "C" {
+        fn setrlimit(resource: i32, rlim: *const RLimit) -> i32;
+    }
+    const RLIMIT_AS: i32 = 9;
+    let mb: u64 = std::env::var("DDV_GEN_MEM_MB").ok().and_then(|s| s.parse().ok()).unwrap_or(4096);
+    if mb == 0 {
+        return;
+    }
+    let bytes = mb.saturating_mul(1024 * 1024);
+    let lim = RLimit { cur: bytes, max: bytes };
+    // SAFETY: `setrlimit(2)` with a pointer to a properly initialised `struct rlimit`
+    // (two `rlim_t` = `u64` on 64-bit Linux); the call does not retain the pointer.
+    let _ = unsafe { setrlimit(RLIMIT_AS, &lim) };
+}
+
+#[cfg(not(target_os = "linux"))]
+fn cap_memory() {}
+
 fn worker_main() -> i32 {
     install_panic_capture();
+    cap_memory();
     let stdin = std::io::stdin();
     let stdout = std::io::stdout();
     let mut line = String::new();
@@ -533,5 +565,30 @@ pub fn main_cli(args: &[String]) -> i32 {
             eprintln!("{e}");
             2
         }
+    }
+}
+
+#[cfg(test)]
+mod tests {
+    use super::*;
+
+    #[test]
+    fn compile_error_detection() {
+        let e = syn::Error::new(proc_macro2::Span::call_site(), "a \"quoted\" message");
+        assert_eq!(compile_error_messages(&e.clone().into_compile_error()), Some(vec!["a \"quoted\" message".to_string()]));
+        let mut two = e;
+        two.combine(syn::Error::new(proc_macro2::Span::call_site(), "second"));
+        assert_eq!(compile_error_messages(&two.into_compile_error()).map(|m| m.len()), Some(2));
+        assert_eq!(compile_error_messages(&quote::quote! { struct A; }), None);
+        assert_eq!(compile_error_messages(&quote::quote! { ::core::compile_error! { "x" } struct A; }), None);
+        assert_eq!(compile_error_messages(&TokenStream::new()), None);
+    }
+
+    #[test]
+    fn bad_case_lines_are_harness_errors() {
+        assert_eq!(process_case_line("not json")["facts"]["outcome"], "harness_error");
+        assert_eq!(process_case_line("{\"id\":1,\"syntax\":\"xml\",\"adef\":{}}")["facts"]["outcome"], "harness_error");
+        assert_eq!(process_case_line("{\"id\":1,\"syntax\":\"json\"}")["facts"]["outcome"], "harness_error");
+        assert_eq!(process_case_line("{\"id\":1,\"syntax\":\"json\",\"adef\":[]}")["facts"]["outcome"], "harness_error");
     }
 }
